@@ -213,17 +213,18 @@ def addLimit (s : State) (k : Path) (q : Quota) (supply : Int) (chanExists : Boo
     else if !chanExists then (s, .noChannel)
     else (s.setPath k { ps with limit := some ⟨q, ⟨0, 0, supply⟩⟩ }, .done)
 
-/-- `Keeper.UpdateRateLimit`: new quota, flow zeroed — the pending sets are NOT touched -/
+/-- `Keeper.UpdateRateLimit`: new quota, flow zeroed, both pending sets of the path cleared
+    (since fix 05cc95a; before it the markers survived — DESIGN §6 F4) -/
 def updateLimit (s : State) (k : Path) (q : Quota) (supply : Int) : State × Res :=
   let ps := s.path k
   if ps.limit.isNone then (s, .notFound)
-  else (s.setPath k { ps with limit := some ⟨q, ⟨0, 0, supply⟩⟩ }, .done)
+  else (s.setPath k ⟨some ⟨q, ⟨0, 0, supply⟩⟩, [], []⟩, .done)
 
-/-- `msgServer.RemoveRateLimit`: deletes the limit — the pending sets are NOT touched -/
+/-- `msgServer.RemoveRateLimit`: deletes the limit and both pending sets of the path (fix 05cc95a) -/
 def removeLimit (s : State) (k : Path) : State × Res :=
   let ps := s.path k
   if ps.limit.isNone then (s, .notFound)
-  else (s.setPath k { ps with limit := none }, .done)
+  else (s.setPath k PathState.empty, .done)
 
 /-- `Keeper.ResetRateLimit` on one path's state -/
 def PathState.reset (ps : PathState) (supply : Int) : PathState :=
